@@ -93,6 +93,13 @@ func runFxImmut(m *model.Model, s *ob.Set) {
 				if elem {
 					d += "; mantissa words"
 				}
+				if !m.IsExported(fn) && fn.Parent() == nil && decOperandFreshAtCallers(m, fn, k, 2) {
+					// an unexported helper that is handed a scratch Decimal: what it writes is charged
+					// to its callers through the effect summaries (a caller passing one of its own
+					// operands is reported there), and every call site passes a fresh object
+					s.Note(R, c, m.Pos(fn.Pos()), fmt.Sprintf("internal helper writes parameter %s; every call site passes a Decimal allocated by the caller (decided at the callers)", p.Name()))
+					continue
+				}
 				s.Bad(R, c, m.Pos(fn.Pos()), d, whereWritten(m, fn, k)...)
 			case m.IsWordSlice(p.Type()) && m.InDecimalPkg(fn) && fn.Parent() == nil:
 				// source slices of dec-layer functions and kernels: everything but the destination
@@ -500,6 +507,42 @@ func immutAtCallers(m *model.Model, fn *ssa.Function, k int) bool {
 						}
 					default:
 						return false
+					}
+				}
+			}
+		}
+	}
+	return sites > 0
+}
+
+// decOperandFreshAtCallers: at every call site of the unexported function fn, argument k denotes
+// only objects allocated in the calling function (or handed down the same way from its callers).
+func decOperandFreshAtCallers(m *model.Model, fn *ssa.Function, k int, depth int) bool {
+	sites := 0
+	for _, caller := range m.Funcs {
+		live := m.Live(caller)
+		for _, b := range caller.Blocks {
+			if !live[b.Index] {
+				continue
+			}
+			for _, in := range b.Instrs {
+				cal, c := model.Callee(in)
+				if cal != fn || k >= len(c.Args) {
+					continue
+				}
+				sites++
+				r := m.RefOf(c.Args[k])
+				if r.Unknown || r.Global {
+					return false
+				}
+				if r.Params != 0 {
+					if depth == 0 || m.IsExported(caller) || caller.Parent() != nil {
+						return false
+					}
+					for j := range caller.Params {
+						if r.MayBeParam(j) && !decOperandFreshAtCallers(m, caller, j, depth-1) {
+							return false
+						}
 					}
 				}
 			}
